@@ -54,7 +54,7 @@ TABLE = {
     "deep_slices": (3, TWO_CORE), "fc1_after_conv": (4, TWO_CORE), "nobias": (3, ROTATE), "casc_s2_valid": (4, CASCADE),
     "two_npu_islands": (3, MIXED), "concat_slices": (3, ROTATE), "shared_weights": (2, ROTATE), "big_fm_u65": (3, FAST),
     "avgpool_chain": (2, ROTATE), "minmax_lrelu": (2, ROTATE), "reshape_fork": (4, MIXED), "widen_ew": (3, ROTATE),
-    "lut_mixed": (12, LUT), "shape_out": (42, MIXED), "transpose_perm": (24, ROTATE), "ew_fork": (20, MIXED),
+    "lut_mixed": (18, LUT), "shape_out": (42, MIXED), "transpose_perm": (24, ROTATE), "ew_fork": (20, MIXED),
     "fc1_two_core": (12, TWO_CORE),
 }
 DEFAULT = (3, ROTATE)
